@@ -89,7 +89,75 @@ class Ref:
         raise Unsupported("definition %s" % type(st).__name__)
 
     def def_viral(self, st):
-        raise Unsupported("viral propagation definitions")
+        self.vp_rules[st.target] = dict(enum=[(list(c.values), c.result) for c in (st.enumerated_clauses or [])],
+                                        agg=st.aggregate_clause.function if st.aggregate_clause else None, default=st.default_value)
+
+    # ---- viral propagation model (as the engine documents it: ViralPropagation/sql.py docstrings)
+    def vp_rule(self, name):
+        r = self.vp_rules.get(name)
+        if r is None:
+            raise Unsupported("oracle: viral attribute %s without a rule" % name)
+        return r
+
+    @staticmethod
+    def _lit_or_null(v, kind="str"):
+        return NULL(kind) if v is None else lit(v)
+
+    def vp_pair(self, rule, a, b):
+        """two viral values combined"""
+        if rule["agg"]:
+            f = rule["agg"]
+            x, y, k = unify(a, b)
+            if f in ("min", "max"):
+                lt = (y.val < x.val) if f == "min" else (y.val > x.val)
+                v = z3.If(x.null, y.val, z3.If(y.null, x.val, z3.If(lt, y.val, x.val)))
+                return SV(k, z3.And(x.null, y.null), v)
+            # sum / avg of a pair: the engine adds the two values (null-propagating) while groups ignore nulls;
+            # with a null operand the model is not fixed -> don't care
+            anynull = z3.Or(x.null, y.null)
+            if f == "sum":
+                return SV(k, anynull, x.val + y.val, dc=anynull)
+            xr, yr = as_kind(x, "real"), as_kind(y, "real")
+            return SV("real", anynull, (xr.val + yr.val) / 2, dc=anynull)
+
+        def has(v):
+            if v is None:
+                return z3.Or(a.null, b.null)
+            return z3.Or(z3.And(z3.Not(a.null), a.val == z3.StringVal(v)), z3.And(z3.Not(b.null), b.val == z3.StringVal(v)))
+        res = self._lit_or_null(rule["default"])
+        clauses = [c for c in rule["enum"] if len(c[0]) == 2] + [c for c in rule["enum"] if len(c[0]) == 1]
+        for vals, result in reversed(clauses):
+            res = ite(z3.And(*[has(v) for v in vals]), self._lit_or_null(result), res)
+        return res
+
+    def vp_single(self, rule, a):
+        """enumerated rule applied to one value (row-preserving operators): only single-value clauses apply"""
+        res = self._lit_or_null(rule["default"])
+        for vals, result in reversed([c for c in rule["enum"] if len(c[0]) == 1]):
+            v = vals[0]
+            cond = a.null if v is None else z3.And(z3.Not(a.null), a.val == z3.StringVal(v))
+            res = ite(cond, self._lit_or_null(result), res)
+        return res
+
+    def vp_group(self, rule, vals, ty):
+        """vals: [(member Bool, SV)] combined into one value"""
+        if rule["agg"]:
+            return self.agg_value(rule["agg"], vals, ty)[0]
+        # enumerated: pairwise combination; for three or more members the outcome of a non-associative table depends on
+        # the order -> only groups of <= 2 members are fixed by the model (order-independence itself is C33's query)
+        cnt = z3.Sum([z3.If(m, 1, 0) for m, _ in vals])
+        acc, have = None, FALSE
+        for m, v in vals:
+            if acc is None:
+                acc, have = v, m
+                continue
+            comb = self.vp_pair(rule, acc, v)
+            acc = ite(z3.And(m, have), comb, ite(m, v, acc))
+            have = z3.Or(have, m)
+        return SV(acc.kind, acc.null, acc.val, dc=(cnt >= 3))
+
+    def virals(self, ds):
+        return ds.names("Viral Attribute")
 
     # ------------------------------------------------------------------ dispatch
     def ev(self, node):
@@ -297,12 +365,21 @@ class Ref:
                 pass
         rows = []
         out_types = {}
+        vir = self.virals(ds)
+        whole = {}
+        for vn in vir:
+            rule = self.vp_rule(vn)
+            if rule["agg"]:
+                # aggregate rule over the whole operand (row-preserving operator)
+                whole[vn] = self.agg_value(rule["agg"], [(r.present, r.cols[vn]) for r in ds.rows], ds.comp(vn)[1])
         for row in ds.rows:
             cols = {n: row.cols[n] for n in ds.ids()}
             for m in meas:
                 v, ty = fn((row.cols[m], ds.comp(m)[1]), row.present)
                 out_types[m] = ty
                 cols[m] = v
+            for vn in vir:
+                cols[vn] = whole[vn][0] if vn in whole else self.vp_single(self.vp_rule(vn), row.cols[vn])
             rows.append(Row(row.present, cols, row.ord))
         if not ds.rows:
             raise Unsupported("oracle: dataset without symbolic rows")
@@ -313,6 +390,8 @@ class Ref:
             comps.append((nn, out_types[m], "Measure"))
         for row in rows:
             row.cols = {rename.get(k, k): v for k, v in row.cols.items()}
+        for vn in vir:
+            comps.append((vn, whole[vn][1] if vn in whole else ds.comp(vn)[1], "Viral Attribute"))
         return RDS(comps, rows)
 
     def ds_ds(self, op, L, R):
@@ -330,6 +409,8 @@ class Ref:
         mono = len(cm) == 1
         rows = []
         types = {}
+        lv, rv = self.virals(L), self.virals(R)
+        vnames = lv + [v for v in rv if v not in lv]
         for a in L.rows:
             for b in R.rows:
                 pres = z3.And(a.present, b.present, *[is_true(self.s_binop("=", (a.cols[i], L.comp(i)[1]), (b.cols[i], R.comp(i)[1]), TRUE)[0]) for i in common])
@@ -340,6 +421,11 @@ class Ref:
                     v, ty = self.s_binop(op, (a.cols[m], L.comp(m)[1]), (b.cols[m], R.comp(m)[1]), pres)
                     types[m] = ty
                     cols[m] = v
+                for vn in vnames:
+                    if vn in lv and vn in rv:
+                        cols[vn] = self.vp_pair(self.vp_rule(vn), a.cols[vn], b.cols[vn])
+                    else:
+                        cols[vn] = a.cols[vn] if vn in lv else b.cols[vn]
                 rows.append(Row(pres, cols, a.ord + b.ord))
         comps = [(i, (L.comp(i) if i in lids else R.comp(i))[1], "Identifier") for i in all_ids]
         rename = {}
@@ -349,6 +435,12 @@ class Ref:
             comps.append((nn, types[m], "Measure"))
         for row in rows:
             row.cols = {rename.get(k, k): v for k, v in row.cols.items()}
+        for vn in vnames:
+            src = L if vn in lv else R
+            vt = src.comp(vn)[1]
+            if vn in lv and vn in rv and self.vp_rule(vn)["agg"] == "avg":
+                vt = "Number"
+            comps.append((vn, vt, "Viral Attribute"))
         return RDS(comps, rows)
 
     # ------------------------------------------------------------------ operators
@@ -526,6 +618,18 @@ class Ref:
                 vt2, ve2, _ = unify(vt, ve)
                 cols[m] = ite(cond, vt2, ve2)
                 pres = z3.And(cr.present, z3.If(cond, ft, fe))
+            for vn in self.virals(ref):
+                if isinstance(t, RDS) and isinstance(e, RDS):
+                    ft, vt = pick(t, vn)
+                    fe, ve = pick(e, vn)
+                    nk = KIND_OF_TYPE[ref.comp(vn)[1]]
+                    cols[vn] = self.vp_pair(self.vp_rule(vn), ite(ft, vt, NULL(nk)), ite(fe, ve, NULL(nk)))
+                elif isinstance(t, RDS):
+                    ft, vt = pick(t, vn)
+                    cols[vn] = ite(cond, vt, NULL(vt.kind))
+                else:
+                    fe, ve = pick(e, vn)
+                    cols[vn] = ite(cond, NULL(ve.kind), ve)
             rows.append(Row(pres, cols, cr.ord))
         comps = [c.comp(i) for i in ids]
         for m in meas:
@@ -537,6 +641,11 @@ class Ref:
             elif {ty, other[1]} == {"Integer", "Number"}:
                 ty = "Number"
             comps.append((m, ty, "Measure"))
+        for vn in self.virals(ref):
+            vt_ = ref.comp(vn)[1]
+            if isinstance(t, RDS) and isinstance(e, RDS) and self.vp_rule(vn)["agg"] == "avg":
+                vt_ = "Number"
+            comps.append((vn, vt_, "Viral Attribute"))
         return RDS(comps, rows)
 
     def n_Case(self, node):
@@ -765,6 +874,8 @@ class Ref:
                     v, ty = self.agg_value(op, [(m, r.cols[x]) for m, r in zip(members, ds.rows)], ds.comp(x)[1])
                     cols[x] = v
                     out_meas.append((x, ty, "Measure"))
+            for vn in self.virals(ds):
+                cols[vn] = self.vp_group(self.vp_rule(vn), [(m, r.cols[vn]) for m, r in zip(members, ds.rows)], ds.comp(vn)[1])
             pres = first
             if node.having_clause is not None:
                 saved = self.group
@@ -780,7 +891,13 @@ class Ref:
         if not gids:
             # ungrouped aggregate of an EMPTY operand (one datapoint or none) is not fixed by the statement
             self.domain.append(z3.Or(*[r.present for r in ds.rows]))
-        comps = [ds.comp(g) for g in gids] + out_meas
+        vcomps = []
+        for vn in self.virals(ds):
+            vt = ds.comp(vn)[1]
+            if self.vp_rule(vn)["agg"] == "avg":
+                vt = "Number"
+            vcomps.append((vn, vt, "Viral Attribute"))
+        comps = [ds.comp(g) for g in gids] + out_meas + vcomps
         return RDS(comps, rows)
 
     def count_zero_region(self, first, c, grouped):
@@ -928,8 +1045,15 @@ class Ref:
                 counts[n] = counts.get(n, 0) + 1
         comps = []
         plan = []   # (out name, [(alias, comp name)])
+        holders = {}
         for d, a in seen:
             for n, t, r in d.comps:
+                holders.setdefault(n, []).append((a, r, t))
+        merged = [n for n, hs in holders.items() if len(hs) >= 2 and all(r == "Viral Attribute" for _, r, _ in hs) and n not in key_like]
+        for d, a in seen:
+            for n, t, r in d.comps:
+                if n in merged:
+                    continue
                 if n in key_like:
                     ex = [p for p in plan if p[0] == n]
                     if ex:
@@ -960,7 +1084,19 @@ class Ref:
                         v = rr.cols[n]
                     val = v if val is None else ite(z3.Not(val.null), val, v)
                 cols[out] = val
+            for n in merged:
+                acc = None
+                for a, r, t in holders[n]:
+                    rr = binds.get(a)
+                    v = NULL(KIND_OF_TYPE[t]) if rr is None else rr.cols[n]
+                    acc = v if acc is None else self.vp_pair(self.vp_rule(n), acc, v)
+                cols[n] = acc
             rows.append(Row(pres, cols, o))
+        for n in merged:
+            t = holders[n][0][2]
+            if self.vp_rule(n)["agg"] == "avg":
+                t = "Number"
+            comps.append((n, t, "Viral Attribute"))
         res = RDS(comps, rows)
         if getattr(node, "body", None):
             raise Unsupported("oracle: join body")
